@@ -22,4 +22,16 @@ def outerWhole {α β γ : Type} (f : α → β → γ) (A : List α) (B : List 
 def outerChunked {α β γ : Type} (n m : Nat) (f : α → β → γ) (A : List α) (B : List β) : List γ :=
   (chunks n A).flatMap fun ca => ca.flatMap fun a => (chunks m B).flatMap fun cb => cb.map (f a)
 
+/-- element-wise binary evaluation (`a * b`, `a.dot(b)` on equally chunked operands), whole -/
+def zipWhole {α β γ : Type} (f : α → β → γ) (A : List α) (B : List β) : List γ := List.zipWith f A B
+/-- element-wise binary evaluation block by block: the i-th chunk of `A` meets the i-th chunk of `B` -/
+def zipChunked {α β γ : Type} (n : Nat) (f : α → β → γ) (A : List α) (B : List β) : List γ :=
+  (List.zipWith (List.zipWith f) (chunks n A) (chunks n B)).flatten
+
+/-- reduction along an axis (the max over symmetry-equivalent pairs in a lazy distance matrix), whole -/
+def reduceWhole {α : Type} (op : α → α → α) (e : α) (A : List α) : α := A.foldl op e
+/-- reduction block by block: reduce every chunk, then reduce the partial results -/
+def reduceChunked {α : Type} (n : Nat) (op : α → α → α) (e : α) (A : List α) : α :=
+  ((chunks n A).map fun c => c.foldl op e).foldl op e
+
 end Orix.Chunk
